@@ -434,10 +434,50 @@ def scan_rules(rep, sfacts):
                     if rets and all('T_EOF' in show(x['e']) for x in rets):
                         txt += ' T_EOF(helper %s)' % h['q']
         return txt
-    eofs = [ev for ev in g.calls() if is_call(ev.e, '::push_back') and vec_of(ev.e['obj'], 'Token') and 'T_EOF' in eof_text(ev)]
+    eofs = [ev for ev in g.calls() if (is_call(ev.e, '::push_back') or is_call(ev.e, '::emplace_back')) and vec_of(ev.e['obj'], 'Token') and 'T_EOF' in eof_text(ev)]
     inside = [ev for ev in eofs if loops and any(x is ev.e for x in walk_all_exprs(loops[0]['body']))]
     S1.check(len(eofs) == 1 and not inside and g.on_all_paths(eofs[0]), 'scan: final EOF', 'one push of a T_EOF token on every path, outside the loop',
              '%d EOF pushes (%d inside the loop)' % (len(eofs), len(inside)), 'Compiler/src/scan.cpp:%d' % scan['loc'][1])
+    # ... labelled with the position of the last token of the stream (or the placeholder), not of some other token variable
+    for ev in eofs:
+        rec = None
+        for x in walk_expr(ev.e):
+            if x.get('k') in ('init', 'construct') and (x.get('rec') or '').endswith('Token'):
+                rec = x
+        if rec is None:
+            a0 = M.origin(scan, ev.e['args'][0]) if ev.e.get('args') else None
+            for x in (walk_expr(a0) if a0 is not None else []):
+                if x.get('k') in ('init', 'construct') and (x.get('rec') or '').endswith('Token'):
+                    rec = x
+        if rec is None:
+            continue
+        pos_args = (rec.get('args') or [])[2:4] if rec.get('k') == 'construct' else [v for n_, v in rec.get('fields', []) if n_ in ('file', 'line')]
+        for pa in pos_args:
+            src = M.origin(scan, pa)
+            leaves = []
+
+            def leaves_of(x):
+                x = strip_conv(strip_copies(strip_casts(x))) if x is not None else None
+                if x is None:
+                    return
+                if x.get('k') == 'cond':
+                    leaves_of(x['t'])
+                    leaves_of(x.get('f') if x.get('f') is not None else x.get('e'))
+                elif x.get('k') == 'paren':
+                    leaves_of(x['e'])
+                elif x.get('k') == 'ref' and x.get('dk') == 'var' and M.origin(scan, x) is not x:
+                    leaves_of(M.origin(scan, x))
+                else:
+                    leaves.append(x)
+            leaves_of(src)
+            for lf in leaves:
+                if lf.get('k') == 'member' and lf.get('name') in ('file', 'line'):
+                    b = strip_casts(lf['base'])
+                    from_last = is_call(b, '::back') and b.get('obj') is not None and vec_of(b['obj'], 'Token')
+                    if not from_last:
+                        S1.violation('scan: position of the final EOF', 'the end-of-file token takes its %s from %s, not from the last token of the stream: after an include that contributes no '
+                                     'token (an empty file, an include error) it is labelled with a position that is not the last token\'s' % (lf['name'], show(b)),
+                                     'Compiler/src/scan.cpp:%d' % (lf.get('loc') or ev.e['loc'])[0], witness={'input': 'main: x0 := 1 <newline><newline><newline> include "empty"'})
     S2 = rep.rule('C14.S2', 'every token the scanner returns is appended unchanged, except include directives and the end of a file', floor=2)
     ylex = [ev for ev in g.calls() if is_call(ev.e, 'yylex')]
     pushes = [ev for ev in g.calls() if is_call(ev.e, '::push_back') and vec_of(ev.e['obj'], 'Token') and ev not in eofs]
@@ -704,6 +744,19 @@ def c15(rep, tier):
                             txt += ' ' + show(rets[0]['e'])
             ok = 'substr(1' in txt and 'size() - 2' in txt and '.text' in txt
             why = 'name computed as %s' % txt
+    if len(ev) == 1 and namevar is not None:
+        extra_g = []
+        for cond, label, cn in ev[0].g.guards_of(ev[0].ev):
+            if not isinstance(label, bool):
+                continue
+            ctx_ = show(cond)
+            if any(in_files(x, namevar['name']) for x in walk_expr(cond)) or 'INCLUDE' in ctx_ or 'FNAME' in ctx_ or is_call(strip_casts(cond), '::empty') or \
+                    mentions_eof_test(cond, status_vars(M, ev[0].fn)) or (getattr(cn, 'stmt', None) is not None and cn.stmt.get('k') in ('while', 'for', 'do')):
+                continue
+            extra_g.append(cond)
+        if extra_g:
+            I3.violation('scan: every absent include is reported', 'the FILE_NOT_FOUND error is recorded only under a further condition (%s): an include of an absent file can pass without an '
+                         'error at this place' % show(extra_g[0])[:60], W % ev[0].ev.e['loc'][0], witness={'input': 'two includes of the same absent file'})
     I3.check(ok, 'scan: missing include target', 'FILE_NOT_FOUND with file_request = text.substr(1, size-2) when !files.contains(name)', why, W % scan['loc'][1])
     I4 = rep.rule('C15.I4', 'a file is pushed on the scanner stack only if it exists and is not already being scanned; the recursion test looks at '
                             'every active scanner and records RECURSIVE_INCLUDE', floor=3)
@@ -739,6 +792,50 @@ def c15(rep, tier):
             continue
         I4.check(exists and (notactive or not inloop), 'scan: push %s' % key, 'dominated by files.contains(%s)%s' % (key, ' and !exists_scanner(lex_stack, %s)' % key if inloop else ' (initial push, empty stack)'),
                  'a scanner is pushed without %s' % ('existence test' if not exists else 'recursion test'), W % ev.e['loc'][0])
+    # an include directive is never dropped silently: on every path from the INCLUDE test back to the head of the scanning loop a
+    # scanner is pushed or an error is recorded
+    gS = M.cfg(scan)
+    if loops:
+        heads = [nd for nd in gS.nodes if nd.kind == 'cond' and nd.stmt is loops[0]]
+        inc_br = [nd for nd in gS.nodes if nd.kind == 'branch' and nd.label is True and nd.of is not None and nd.of.exprs and 'INCLUDE' in show(nd.of.exprs[0]) and
+                  any(x is nd.of.stmt for x in walk_stmts(loops[0]['body']))]
+        if heads and inc_br:
+            done_nodes = set()
+            for ev_ in gS.calls():
+                if (is_call(ev_.e, '::push_back') or is_call(ev_.e, '::emplace_back')) and ev_.e.get('obj') is not None and \
+                        (vec_of(ev_.e['obj'], 'Scanner') or vec_of(ev_.e['obj'], 'ParseError')) and not ev_.conditional:
+                    done_nodes.add(ev_.node.id)
+                elif ev_.e.get('callee_in_repo') and ev_.e.get('obj') is None and any(vec_of(a, 'Scanner') or vec_of(a, 'ParseError') for a in ev_.e.get('args', [])):
+                    # a helper that is handed the stack / the error list and pushes onto one of them on every path (its body is covered by the family rules)
+                    h_ = sfacts.fn(ev_.e.get('callee'), optional=True)
+                    if h_ is not None and h_.get('body') is not None:
+                        gh_ = M.cfg(h_)
+                        hp = [x for x in gh_.calls() if (is_call(x.e, '::push_back') or is_call(x.e, '::emplace_back')) and x.e.get('obj') is not None and
+                              (vec_of(x.e['obj'], 'Scanner') or vec_of(x.e['obj'], 'ParseError'))]
+                        # every return of the helper is dominated by one of the pushes
+                        if hp and all(any(x.node.id in gh_.dom[r.id] for x in hp) for r in gh_.returns()):
+                            done_nodes.add(ev_.node.id)
+            seen_, work_, silent = set(), list(inc_br[0].succ), None
+            while work_:
+                nd = work_.pop()
+                if nd.id in seen_ or nd.id in done_nodes:
+                    continue
+                seen_.add(nd.id)
+                if nd.id == heads[0].id:
+                    silent = nd
+                    break
+                work_.extend(nd.succ)
+            last_skip = None
+            if silent is not None:
+                # name the statement that skips: a continue in the include branch that no push/error dominates
+                for st_ in walk_stmts(inc_br[0].of.stmt.get('t') or {'k': 'block', 's': []}):
+                    if st_['k'] == 'continue':
+                        nds = [nd for nd in gS.nodes if nd.stmt is st_]
+                        last_skip = st_
+            I4.check(silent is None, 'scan: every include directive has an effect', 'each path through the include branch pushes a scanner or records an error',
+                     'an include directive can be skipped without a trace (a path from the INCLUDE test back to the loop head neither pushes a scanner nor records an error): the '
+                     'tokens of the named file are missing from the stream - e.g. a second, non-nested include of a file', W % ((last_skip or loops[0])['loc'][0]),
+                     witness={'input': 'main: include "a" include "a"   a: x0 := x0 + 1'} if silent is not None else None)
     es = sfacts.fn('exists_scanner')
     rep.analysed(es)
     okes = False
